@@ -64,8 +64,9 @@ ScalarOf(t) == CASE t[1] = "INT" -> <<"int", t[2]>>
                  [] t[1] = "ID" -> <<"str", t[2], "bare">>
                  [] t[1] = "QSTR" -> <<"str", t[2][1], t[2][2]>>
 IsScalarTok(t) == t[1] \in {"INT", "FLOAT", "BOOL", "BARE", "QSTR", "ID"}
-IsKeyTok(t) == t[1] \in {"BARE", "QSTR", "ID"}
-IsTupleValTok(t) == t[1] \in {"INT", "FLOAT", "BARE", "QSTR", "ID"}
+\* the words True / False are ordinary words wherever a string may stand
+IsKeyTok(t) == t[1] \in {"BARE", "QSTR", "ID", "BOOL"}
+IsTupleValTok(t) == t[1] \in {"INT", "FLOAT", "BARE", "QSTR", "ID", "BOOL"}
 
 RECURSIVE PVal(_), PElems(_), PPairs(_)
 PVal(ts) ==
